@@ -104,7 +104,7 @@ func cmdPlugin(args []string) {
 	seed := fs.Int("seed", 1, "sampling seed")
 	fs.Parse(args)
 	u := corpus.PluginUniverse()
-	universe := []*corpus.File{u["xbe"], u["A"], u["xa2"], u["B"], u["C"], u["D"], u["E"], u["F"], u["G"], u["H"]}
+	universe := []*corpus.File{u["X"], u["A"], u["xa2"], u["B"], u["C"], u["D"], u["E"], u["F"], u["G"], u["H"], u["p1"], u["p2"], u["I"]}
 	base := map[string]string{}
 	for k, f := range u {
 		base[strings.TrimSuffix(filepath.Base(f.Name), ".proto")] = k
